@@ -88,8 +88,8 @@ GInit ==
   /\ ~Started /\ cur.n = 0
   /\ \E hz \in {RandomElement({"tok", "zero"})} :
        LET h == IF hz = "zero" THEN "zero" ELSE HTok(ctr.h) IN
-       /\ InitialiseOk(TTok(ctr.x), h, 100, 0, <<>>)
-       /\ Push([op |-> "init", hash |-> h, ts |-> 100, height |-> 0])
+       /\ InitialiseOk(TTok(ctr.x), h, 100, Base, <<>>)
+       /\ Push([op |-> "init", hash |-> h, ts |-> 100, height |-> Base])
   /\ Bump2("h", "x")
 
 GMine ==
@@ -286,7 +286,7 @@ GRestart == Started /\ FallBack /\ Push([op |-> "restart"]) /\ UNCHANGED ctr
 
 GReorg ==
   /\ Started /\ cur.n = 0
-  /\ \E n \in {RandomElement({m \in (Height - 12)..(Height + 1) : m >= 0})} :
+  /\ \E n \in {RandomElement({m \in (Height - 12)..(Height + 1) : m >= Base})} :
        /\ IF ReorgAcceptable(n) THEN ReorgOk(n) ELSE Reject
        /\ Push([op |-> "reorg", n |-> n])
   /\ UNCHANGED ctr
@@ -306,7 +306,7 @@ GBad ==
              [] kind = "count" -> Push([op |-> "finalise", ts |-> CurTs, hash |-> CurHash, count |-> cur.n + 1])
              [] kind = "finhash" -> cur.n > 0 /\ Push([op |-> "finalise", ts |-> CurTs, hash |-> HTok(ctr.h), count |-> cur.n])
              [] kind = "commit" -> cur.n > 0 /\ Push([op |-> "commit"])
-             [] kind = "reorg" -> cur.n > 0 /\ Height >= 1 /\ Push([op |-> "reorg", n |-> Height - 1])
+             [] kind = "reorg" -> cur.n > 0 /\ Height >= Base + 1 /\ Push([op |-> "reorg", n |-> Height - 1])
              [] kind = "mine" -> cur.n > 0 /\ Push([op |-> "mine", k |-> 1, ts |-> CurTs])
              [] kind = "both" -> Push([base EXCEPT !.enc = "both"])
              [] kind = "none" -> Push([base EXCEPT !.enc = "none"])
